@@ -85,11 +85,11 @@ def role(e):
     return "delivered" if d and not r else ("requested" if r and not d else None)
 
 
-def rule_current_power(ck):
+def rule_current_power(ck, rid_c="C18.current", rid_p="C18.power"):
     f, fl, r, e = single_return(ck, "aggregate_current")
     red = reductions(e)
     ok = len(red) == 1 and red[0][0] in ("sum", "nansum") and red[0][1] == 0 and red[0][2] == "sim.charging_rates"
-    ck.require(ok, "C18.current", f, r.expr, ok="sum over stations (axis 0) of the recorded rates",
+    ck.require(ok, rid_c, f, r.expr, ok="sum over stations (axis 0) of the recorded rates",
                bad=f"aggregate current must be charging_rates summed over axis 0; got {src(e)}", sink="aggregate_current")
     f, fl, r, e = single_return(ck, "aggregate_power")
     lv = leaves(e)
@@ -98,11 +98,11 @@ def rule_current_power(ck):
     prod = any(isinstance(c, ast.Call) and call_name(c) in ("dot", "matmul", "inner") for c in ast.walk(e)) or \
         any(isinstance(b, ast.BinOp) and isinstance(b.op, ast.MatMult) for b in ast.walk(e)) or \
         any(x[0] == "sum" and x[1] == 0 and "_voltages" in (x[2] or "") for x in reductions(e))
-    ck.require(ok and prod, "C18.power", f, r.expr, ok="station rates weighted by each station's own voltage, summed over stations",
+    ck.require(ok and prod, rid_p, f, r.expr, ok="station rates weighted by each station's own voltage, summed over stations",
                bad=f"aggregate power must weight each station's rate by its own voltage (network._voltages . charging_rates); got {src(e)}",
                sink="aggregate_power")
-    check_units(ck, "C18.power", f, UNITS["aggregate_power"])
-    check_units(ck, "C18.current", ck.repo.fn("aggregate_current", module=MOD), UNITS["aggregate_current"])
+    check_units(ck, rid_p, f, UNITS["aggregate_power"])
+    check_units(ck, rid_c, ck.repo.fn("aggregate_current", module=MOD), UNITS["aggregate_current"])
 
 
 def rule_constraint_currents(ck, rid="C18.order"):
